@@ -11,10 +11,12 @@ from harness.common.core import pct, rat
 from harness.gen import crystalio as gen_cio
 
 ID = "C10"
-LEAN_TARGETS = ["ChmpyVerif.Props.C10", "ChmpyVerif.Props.C15Float"]
+LEAN_TARGETS = ["ChmpyVerif.Props.C10Sfac", "ChmpyVerif.Props.C10", "ChmpyVerif.Props.C15Float"]
 T = "ChmpyVerif.Props.C10."
 THEOREMS = [T + n for n in ("save_load_dispatch", "shelx_keys_letters", "shelx_label_never_keyword", "shelx_atom_format", "shelx_coord_roundtrip",
-                            "shelx_cell_precision", "poscar_row_format")]
+                            "shelx_cell_precision", "poscar_row_format",
+                            # Props/C10Sfac.lean
+                            "mem_sfacOf", "sfacOf_nodup", "sfacOf_sorted", "sfac_index_roundtrip", "atomSfac_range", "shelx_elements_roundtrip")]
 # the CIF route: an `_atom_site_*` row (label + fixed-point columns) is cut into exactly its fields and every number reads back as its
 # 12-decimal rounding (theorems shared with C15)
 THEOREMS += ["ChmpyVerif.Props.C15." + n for n in ("atom_site_row_tokens", "atom_site_row_tokens_alnum", "fixedCore_reads_back", "fixedCore_error")]
@@ -290,6 +292,21 @@ def correspond(ctx):
         key = st[:4].upper()
         impl = "END" if key == "END" else ("KEY " + pct(key) if key in shelx.SHELX_LINE_KEYS else "ATOM")
         cases.append(("key " + pct(line), impl, ["key", line]))
+    # element bookkeeping of the .res writer/reader (Props/C10Sfac.lean): the real to_shelx_string / _parse_atom_line on crystals with random elements
+    from chmpy.core.element import Element
+    from chmpy.crystal import AsymmetricUnit, Crystal, SpaceGroup, UnitCell
+    for _ in range(25 if not ctx.thorough else 300):
+        n = rng.randint(1, 12)
+        pool = rng.sample(range(1, 104), rng.randint(1, 5))
+        zs = [rng.choice(pool) for _ in range(n)]
+        c = Crystal(UnitCell.cubic(10.0 + rng.random()), SpaceGroup(1), AsymmetricUnit([Element[z] for z in zs], np.array([[rng.random() for _ in range(3)] for _ in zs])))
+        text = c.to_shelx_string().splitlines()
+        sf = next(l for l in text if l.upper().startswith("SFAC")).split()[1:]
+        atom_lines = [l for l in text if l.strip() and l.strip()[:4].upper() != "END" and l.strip()[:4].upper() not in shelx.SHELX_LINE_KEYS]
+        idx = [l.split()[1] for l in atom_lines]
+        back = [Element[shelx._parse_atom_line(tuple(sf), l)["element"]].atomic_number for l in atom_lines]
+        impl = ",".join(str(Element[x].atomic_number) for x in sf) + "|" + ",".join(idx) + "|" + ",".join(str(b) for b in back)
+        cases.append(("sfac " + " ".join(str(z) for z in zs), impl, ["sfac", zs]))
     core.correspond_lines(ctx, "C10", cases)
 
 
